@@ -1,5 +1,6 @@
 import PotasscoVerif.Drv.Calls
 import PotasscoVerif.Model.TextIn
+import PotasscoVerif.Model.TextOut
 namespace PotasscoVerif.Drv
 open PotasscoVerif
 
@@ -13,5 +14,13 @@ def runTR (args : List String) : String :=
       joinSp (r.calls.map showCall ++ [match r.err with | none => "OK" | some l => s!"ERR:{l}:1"])
     | none => "bad-op"
   | _ => "bad-op"
+
+/-- `tw <call>*` -/
+def runTW (args : List String) : String :=
+  match args.mapM parseCall with
+  | some cs =>
+    let t := TextOut.write cs
+    (if t.fail then "EXC " else "") ++ hex t.out
+  | none => "bad-op"
 
 end PotasscoVerif.Drv
